@@ -54,7 +54,7 @@ Spline solveDiffusionSteadyState(DSpline diffusionCoeff, data_t startValue,
   auto last = std::move(basis.back());
   last *= endValue;
   basis.erase(basis.begin());
-  basis.erase(basis.end());
+  basis.pop_back();
 
   const integration::BilinearForm bilinearForm{
       Dx<1>{}, (static_cast<data_t>(-1) / 2) *
